@@ -990,7 +990,13 @@ class Interp:
                          self.eval(s.upper, fr) if s.upper is not None else None,
                          self.eval(s.step, fr) if s.step is not None else None)
         if isinstance(s, ast.Tuple):
-            return tuple(self.eval_index(x, fr) for x in s.elts)
+            out = []
+            for x in s.elts:
+                if isinstance(x, ast.Starred):
+                    out.extend(self.iterate(self.eval(x.value, fr)))
+                else:
+                    out.append(self.eval_index(x, fr))
+            return tuple(out)
         return self.eval(s, fr)
 
     def ex_Subscript(self, e, fr):
@@ -1114,13 +1120,42 @@ class Interp:
 
     def call_pyfunc(self, f, args, kwargs, callnode=None):
         node = f.node
-        a = node.args
         callsite = self.loc()
         fr = Frame(f, f.module, f.closure, callsite)
+        self.bind_arguments(f, args, kwargs, fr.locals, callsite)
+        key = f.module.name + '.' + f.qualname
+        self.call_counts[key] = self.call_counts.get(key, 0) + 1
+        if self.trace_calls is not None:
+            self.trace_calls.append((key, callsite))
+        if len(self.stack) > 60:
+            raise AnalysisError('recursion', 'call depth > 60 at %s' % callsite)
+        if f.is_generator is None:
+            f.is_generator = _has_yield(node)
+        if f.is_generator:
+            # generator functions are run eagerly: the values are collected and handed out as an iterator (the
+            # analysed code base has no infinite or side-effecting generators; send()/throw() are not modelled)
+            fr.yielded = []
+        self.stack.append(fr)
+        try:
+            self.libs.on_enter(f, fr)
+            self.exec_block(node.body, fr)
+            ret = None
+        except _Return as r:
+            ret = r.value
+        finally:
+            self.stack.pop()
+        if f.is_generator:
+            return iter(fr.yielded)
+        return ret
+
+    def bind_arguments(self, f, args, kwargs, loc, callsite=None):
+        """Python's argument binding for a function of the analysed program; fills `loc` (name -> value)"""
+        a = f.node.args
         params = [p.arg for p in a.posonlyargs + a.args]
-        loc = fr.locals
         args = list(args)
         kwargs = dict(kwargs)
+        if callsite is None:
+            callsite = self.loc()
         if len(args) > len(params) and a.vararg is None:
             raise PyExc('TypeError', '%s() takes %d positional arguments but %d were given'
                         % (f.name, len(params), len(args)), loc=callsite)
@@ -1155,30 +1190,7 @@ class Interp:
         elif kwargs:
             raise PyExc('TypeError', '%s() got an unexpected keyword argument %s' % (f.name, sorted(kwargs)[0]),
                         loc=callsite)
-        key = f.module.name + '.' + f.qualname
-        self.call_counts[key] = self.call_counts.get(key, 0) + 1
-        if self.trace_calls is not None:
-            self.trace_calls.append((key, callsite))
-        if len(self.stack) > 60:
-            raise AnalysisError('recursion', 'call depth > 60 at %s' % callsite)
-        if f.is_generator is None:
-            f.is_generator = _has_yield(node)
-        if f.is_generator:
-            # generator functions are run eagerly: the values are collected and handed out as an iterator (the
-            # analysed code base has no infinite or side-effecting generators; send()/throw() are not modelled)
-            fr.yielded = []
-        self.stack.append(fr)
-        try:
-            self.libs.on_enter(f, fr)
-            self.exec_block(node.body, fr)
-            ret = None
-        except _Return as r:
-            ret = r.value
-        finally:
-            self.stack.pop()
-        if f.is_generator:
-            return iter(fr.yielded)
-        return ret
+        return loc
 
 
 def _has_yield(node):
